@@ -58,8 +58,13 @@ theorem iteration_terminates (input : List Char) (a : Sl) (extra : Nat) :
 /-! non-vacuity -/
 example : toCow "\"".toList = [] ∧ toCow "\"abc".toList = "abc".toList ∧
     toCow "\"ab\"cd".toList = "ab".toList ∧ unquote "\"a\\\"b\"".toList = "a\"b".toList := by decide
+-- NOTE (proofE): this example originally expected the attribute block at offset 4
+-- (`⟨4, …⟩`), which is false for the model: the ';' at offset 4 is removed by
+-- `trimBoth (· = ';')`, so the block starts at 5 (`#eval` confirms).  With the wrong
+-- value `decide` does not fail but hangs; with the right one plain `decide` is still
+-- too slow (> 10 min, Meta-level whnf), `decide +kernel` takes < 1 s.
 example : parseLinks "</a>;k=\"v,\";x,<b>".toList =
-    [.link ⟨1, "/a".toList⟩ ⟨4, "k=\"v,\";x".toList⟩, .link ⟨15, "b".toList⟩ ⟨17, []⟩] := by decide
+    [.link ⟨1, "/a".toList⟩ ⟨5, "k=\"v,\";x".toList⟩, .link ⟨15, "b".toList⟩ ⟨17, []⟩] := by decide +kernel
 example : parseLinks "<a>,x<b>".toList = [.link ⟨1, ['a']⟩ ⟨3, []⟩, .error] := by decide
 
 end CoapLite.C17
